@@ -365,7 +365,18 @@ static void txcmd(std::istringstream& is) {
             printf("%s{\"amount\":\"%s\",\"script\":\"%s\"}", i ? "," : "", le_hex((uint64_t)o.nValue, 8).c_str(),
                    hx(std::vector<unsigned char>(o.scriptPubKey.begin(), o.scriptPubKey.end())).c_str());
         }
-        printf("]}\n");
+        printf("]");
+        // the same transaction given the way the option gives it, with an amount for every input (--tx=<amounts>:<hex>)
+        bool viaopt = true;
+        if (!tx->vin.empty()) {
+            std::string pre;
+            for (size_t i = 0; i < tx->vin.size(); i++) pre += (i ? ",0.5" : "0.5");
+            Instance I2;
+            int saved2 = dup(2); FILE* nul2 = fopen("/dev/null", "w"); if (nul2) { fflush(stderr); dup2(fileno(nul2), 2); }
+            try { viaopt = I2.parse_transaction((pre + ":" + h).c_str(), true) && I2.tx && I2.tx->GetHash() == id; } catch (const std::exception&) { viaopt = false; }
+            if (nul2) { fflush(stderr); dup2(saved2, 2); fclose(nul2); } close(saved2);
+        }
+        printf(",\"viaopt\":%s}\n", viaopt ? "true" : "false");
     } catch (const std::exception& ex) {
         printf(",\"ok\":false,\"why\":%s}\n", jstr(ex.what()).c_str());
     }
